@@ -72,15 +72,17 @@ def io_oracle(fut, method, args, io):
     return None
 
 
-def run_file(path, label, n_random, preload=False):
+def run_file(path, label, n_random, preload=False, extra=()):
     fut = FileUnderTest(path, model, preload=preload)
+    # the remote backend: same values, same requests (C07: "the same counts hold for the remote backend")
+    blob = FileUnderTest(path, None, backend='blob', share=fut) if (a.pid == 'C07' and not preload) else None
     # C07: opening touches only the header blocks
     if a.pid == 'C07':
         opens = fut.f.log[:]
         exp = [(0, 4096)] + ([(0, 4096 * fut.spec.nhb)] if fut.spec.nhb != 1 else [])
         if not preload and opens[:len(exp)] != exp:
             R.violation('oracle', {'file': label, 'op': 'open'}, f'opening read {opens[:4]}, expected {exp}')
-    for method, args in calls_for(rng, fut, n_random):
+    for method, args in list(extra) + list(calls_for(rng, fut, n_random)):
         want = fut.oracle(method, args)
         oob = (want[0] == 'err')
         if a.pid == 'C14' and not oob and rng.random() < 0.8:
@@ -108,6 +110,21 @@ def run_file(path, label, n_random, preload=False):
             msg = io_oracle(fut, method, args, io)
             if msg:
                 R.violation('oracle', {'file': label, 'call': method, 'args': list(args)}, msg)
+            if blob is not None and ((method, args) in extra or rng.random() < 0.5):
+                bgot, bio = blob.impl(method, args)
+                binp = {'file': label, 'call': method, 'args': list(args), 'backend': 'blob'}
+                R.count('blob backend calls')
+                if bgot[0] != 'val' or not bits_equal(bgot[1], want[1]):
+                    R.violation('oracle', binp, 'value read through the blob backend differs from the specification decode')
+                else:
+                    msg = io_oracle(blob, method, args, bio)
+                    if msg:
+                        R.violation('oracle', binp, msg)
+                    else:
+                        blocks = lambda ios: sorted({b for o, l in ios if l > 0 for b in range(o // 4096, (o + l + 4095) // 4096)})
+                        if blocks(bio) != blocks(io):
+                            R.violation('oracle', binp, f'the blob backend touches other disk blocks than the file backend: '
+                                        f'{len(blocks(bio))} vs {len(blocks(io))}, difference {sorted(set(blocks(bio)) ^ set(blocks(io)))[:6]}')
     if a.pid == 'C07' and preload:
         # with preload the data section is fetched exactly once (at construction) and never again
         ds = fut.data_start
@@ -116,6 +133,8 @@ def run_file(path, label, n_random, preload=False):
         if pre != [(ds, 4096 * fut.spec.ndb)]:
             R.violation('oracle', {'file': label, 'op': 'preload'}, f'preload read {pre[:4]}')
     fut.close()
+    if blob is not None:
+        blob.close()
 
 
 def header_and_warm_cache_io(d):
@@ -176,14 +195,22 @@ try:
     layouts = LAYOUTS_3D if not quick else (LAYOUTS_3D[:3] + rng.sample(LAYOUTS_3D[3:], 7))
     nshapes = 1 if quick else 4
     # always: a default-layout file whose traces span SEVERAL z-blocks (bs2 = 64 at 32 bit) and a z-slice-layout file
-    multi_z = [('multi-z', 32, (4, 4, -1), (rng.choice([5, 6, 9]), rng.choice([4, 7, 10]), rng.choice([65, 67, 128, 129, 131]))),
+    multi_z = [('multi-z', 32, (4, 4, -1), (rng.choice([5, 6, 9]), rng.choice([7, 10, 13]), rng.choice([65, 67, 128, 129, 131]))),
                ('multi-z', 2, (64, 64, 4), (rng.choice([5, 66]), rng.choice([6, 65]), rng.choice([9, 13])))]
     for tag, bpv, bs, shape in multi_z:
         bsr = szutils.define_blockshape_3d(bpv, bs)[1]
         p, arr = make_3d_file(rng, d, shape, bpv, bs)
         label = f'numpy {shape} bpv={bpv} bs={bsr}'
         R.count(f'layout {bsr} rate {bpv} ({tag})')
-        run_file(p, label, 10 if quick else 30)
+        # boxes that cross several trace columns but only part of each column's z-blocks (windows inside one z-block, across
+        # a z-block boundary, the last partial block), on both backends
+        n_il_, n_xl_, ns_ = shape
+        zb = bsr[2]
+        wins = [(0, min(3, ns_)), (max(0, ns_ - 2), ns_)] + ([(zb - 1, zb + 1), (zb, min(ns_, zb + 5)), (zb + 1, min(ns_, 2 * zb))] if ns_ > zb + 1 else [])
+        extra = [('read_subvolume', (0, n_il_, 0, n_xl_, z0, z1)) for z0, z1 in wins if z0 < z1] + \
+                [('read_subvolume', (n_il_ // 2, n_il_ // 2 + 1, 1, n_xl_, z0, z1)) for z0, z1 in wins[:3] if z0 < z1] + \
+                [('get_trace', (n_xl_ + 1, z0, z1)) for z0, z1 in wins[:3] if z0 < z1]
+        run_file(p, label, 10 if quick else 30, extra=extra)
         os.remove(p)
     for bpv, bs in layouts:
         bsr = szutils.define_blockshape_3d(bpv, bs)[1]
